@@ -558,3 +558,34 @@ class AreaAdditive:
         whole = c.call(AREA, w, s, e, n)
         parts = [c.call(AREA, a0, b0, a1, b1) for (a0, a1) in ((w, xm), (xm, e)) for (b0, b1) in ((s, ym), (ym, n))]
         yield 'the children add up to the parent', to_real(parts[0]) + to_real(parts[1]) + to_real(parts[2]) + to_real(parts[3]) == to_real(whole)
+
+
+@contract
+class QuadtreeCellArea:
+    qualname = 'csep.core.regions.QuadtreeGrid2D.get_cell_area'
+    case = 'grid of any number of cells'
+    properties = ('C17',)
+
+    def params(c):
+        n = c.int('ncells')
+        c.ctx.assume(n >= 0)
+        bounds = c.arr2('bounds', 'float64', (n, 4))
+        me = c.obj('csep.core.regions.QuadtreeGrid2D', bounds=bounds)
+        me.abstract = False
+        return dict(self=me, _b=bounds, _n=n)
+
+    def ensures(c, r, self, _b, _n):
+        ok = isinstance(r, Arr) and r.ndim == 1
+        yield 'returns a 1-d array', z3.BoolVal(ok)
+        if not ok:
+            return
+        yield 'one area per cell', to_z3(r.shape[0]) == _n
+        yield 'stored as cell_area', z3.BoolVal(self.fields.get('cell_area') is r)
+        k = c.ctx.fresh_int('k!sk')
+        if c.ctx.branch(z3.And(0 <= k, k < _n)):
+            B = lambda j: to_real(_b.f((k, j)))
+            yield 'area k is the spherical-band area of the bounds (west, south, east, north) of cell k', \
+                to_real(r.f((k,))) == area_spec(B(0), B(1), B(2), B(3))
+
+    def raises(c, exc, **kw):
+        return None
